@@ -12,6 +12,8 @@ pub struct RuleSpec
     pub sources : Vec<String>,
     /// script lines (already in the mini-language, one operation each)
     pub script : Vec<String>,
+    /// the command section exactly as written, when the rule was read back from a rules file
+    pub raw_command : Option<Vec<String>>,
 }
 
 impl RuleSpec
@@ -20,6 +22,7 @@ impl RuleSpec
     /// script line, separated by ";" lines, which is what to_command_script undoes.
     pub fn command_lines(&self, split_tokens : bool) -> Vec<String>
     {
+        if let Some(raw) = &self.raw_command { return raw.clone(); }
         let mut out = vec![];
         for (i, l) in self.script.iter().enumerate()
         {
@@ -284,7 +287,7 @@ pub fn gen_scenario(rng : &mut Rng, params : &GenParams) -> Scenario
             },
             _ => {},
         }
-        rules.push(RuleSpec{targets : targets, sources : sources, script : script});
+        rules.push(RuleSpec{targets : targets, sources : sources, script : script, raw_command : None});
     }
     if params.flavor == Flavor::Undeclared
     {
@@ -354,4 +357,34 @@ pub fn mutate_scenario(rng : &mut Rng, sc : &Scenario) -> Scenario
     // names simply become leaves (missing files), which is a legitimate situation
     if !out.well_formed() { return sc.clone(); }
     out
+}
+
+
+/// read back a rules file in the flat shape `render` produces (used for corpus cases and replays)
+pub fn scenario_from_text(text : &str) -> Option<Scenario>
+{
+    let mut rules = vec![];
+    for block in text.split("\n\n")
+    {
+        let block = block.trim_matches('\n');
+        if block.is_empty() { continue; }
+        let lines : Vec<&str> = block.split('\n').collect();
+        let mut sections : Vec<Vec<String>> = vec![vec![]];
+        for l in lines
+        {
+            if l == ":" { sections.push(vec![]); } else { sections.last_mut().unwrap().push(l.to_string()); }
+        }
+        if sections.len() != 4 || !sections[3].is_empty() { return None; }
+        if sections[0].iter().chain(sections[1].iter()).any(|l| l.starts_with('\t') || l.is_empty()) { return None; }
+        // command lines -> script lines (what to_command_script does)
+        let mut script = vec![];
+        let mut cur : Vec<String> = vec![];
+        for l in sections[2].iter()
+        {
+            if l == ";" { script.push(cur.join(" ")); cur = vec![]; } else { cur.push(l.clone()); }
+        }
+        if !cur.is_empty() { script.push(cur.join(" ")); }
+        rules.push(RuleSpec{targets : sections[0].clone(), sources : sections[1].clone(), script : script, raw_command : Some(sections[2].clone())});
+    }
+    Some(Scenario{rules : rules, split_tokens : false})
 }
